@@ -510,6 +510,52 @@ Arguments WOk {S} s.
 Arguments WNodeError {S}.
 Arguments WUnbound {S}.
 
+(* ------------------------------------------------------------------ the file a path held before.
+   ArrayMorphWriter.write does  tables.open_file(filepath, mode="w"):  the store the writer starts from is the empty one
+   whatever the path held (Gen_C18 / Inst_C18 check the mode of every open_file call on each run).  A history is a
+   list of write(data, path) calls on ONE path, each followed by a load. *)
+Section History.
+  Variable V : Type.
+  Inductive hitem : Type := HDoc (d : adoc V) | HMorph (m : amorph V).
+
+  Definition open_file_w (held_before : fstore V) : fstore V := f_empty V.
+
+  Definition write_then_load (file : fstore V) (x : hitem) : option (fstore V) * rt V :=
+    let w := match x with
+             | HDoc d => write_document V (fstore V) (open_file_w file) (f_mkgroup V) (f_mkarray V) d
+             | HMorph m => write_morphology V (fstore V) (open_file_w file) (f_mkgroup V) (f_mkarray V) m
+             end in
+    match w with
+    | None => (None, RtNodeError V)
+    | Some s => (Some s, match l_load V s with Some ms => RtOk V ms | None => RtLoadError V end)
+    end.
+
+  (* a failed write leaves a partially written file; its content does not matter for what follows *)
+  Fixpoint roundtrip_history (file : fstore V) (xs : list hitem) : list (rt V) :=
+    match xs with
+    | [] => []
+    | x :: t => let r := write_then_load file x in
+                snd r :: roundtrip_history (match fst r with Some s => s | None => file end) t
+    end.
+
+  Definition roundtrip_item (x : hitem) : rt V :=
+    match x with HDoc d => roundtrip_document V d | HMorph m => roundtrip_morphology V m end.
+End History.
+Arguments HDoc {V} d.
+Arguments HMorph {V} m.
+
+(* ------------------------------------------------------------------ static facts read from the source on every run
+   (translators/tr_c18.py): the mode of every open_file call of writer and loader, and the attributes the two classes
+   of arraymorph.py ever assign on self (the model computes every view from the CURRENT arrays: no derived state) *)
+Definition all_in (known l : list string) : bool := forallb (fun x => existsb (String.eqb x) known) l.
+
+Definition c18_static_ok (writer_modes loader_modes segmentlist_writes arraymorph_writes : list string) : bool :=
+  match writer_modes with [] => false | _ => forallb (String.eqb "w"%string) writer_modes end
+  && match loader_modes with [] => false | _ => forallb (String.eqb "r"%string) loader_modes end
+  && all_in ["arraymorph"; "instantiated_segments"]%string segmentlist_writes
+  && all_in ["connectivity"; "vertices"; "id"; "physical_mask"; "node_types"; "fractions_along"; "segments"]%string
+            arraymorph_writes.
+
 (* ------------------------------------------------------------------ comparison helpers for the generated cases files
    (vertex rows with integer coordinates) *)
 Definition vtx : Type := (Z * Z * Z * Z)%type.
@@ -606,6 +652,9 @@ Definition frame_case_ok
 
 Definition doc_case_ok (w : adoc vtx -> rt vtx) (x : adoc vtx * rt vtx) : bool :=
   match x with (d, r) => rt_eqb (w d) r end.
+
+Definition history_case_ok (x : list (hitem vtx) * list (rt vtx)) : bool :=
+  match x with (xs, rs) => list_eqb rt_eqb (roundtrip_history vtx (f_empty vtx) xs) rs end.
 
 Definition morph_case_ok (x : amorph vtx * rt vtx) : bool :=
   match x with (m, r) => rt_eqb (roundtrip_morphology vtx m) r end.
